@@ -313,7 +313,7 @@ pub fn construct_class(core: &str) -> Option<&'static str> {
         }
     }
     fn chain(c: &Chain, f: &mut Found) {
-        if let Some(Match::Identifier(..)) = &c.match_pattern {
+        if let Some(Match::Identifier(..) | Match::Star(_)) = &c.match_pattern {
             // `x = e`: a bare binding accepts a nil `e` (whether it did is decided dynamically,
             // by the reference run's "nil-accepted" event)
             f.bare_binder = true;
@@ -495,6 +495,13 @@ pub const PROBES: &[&str] = &[
     "'l = Nil | Cons['int, ^]\nf = #'l { [...] }, Cons[1, Nil] f",
     // a failed branch pattern drops nil from the complement: the next branch loses its runtime test
     "f = #(A | B | []) { | =A => 1 | =B => 2 }, [] f",
+    // alternatives of one pattern that bind different names
+    "r = 1 { =0 => [z: 1, x: 2] | [z: 3, y: 4] }, * = r, [z, y, x]",
+    "r = 0 { =0 => [z: 1, x: 2] | [z: 3, y: 4] }, * = r, [z, y, x]",
+    // a closure that rebinds a variable whose member it also captures
+    "p = A[x: 1], f = #'int { p = A[x: ~], p.x }, 5 f",
+    // a dispatch branch that ends in a tail call
+    "g = #(A | B) { | =A => 7 | =B => A ^ }, q = B g, q",
     // well-typed tail calls must stay sound
     "f = #'int { =0 => 5 | [~, 1] __integer_subtract__ ^ }, 3 f",
     "g = #['int, 'int] { .0 }, f = #'int { [~, 1] ^g }, 3 f",
